@@ -14,7 +14,9 @@ RULE = ('grep result models (files -> hits with line numbers, match/context kind
         'navigate; every hit must appear once, in order, under its file with identical path, number and code; for rg --json and '
         'coloured input the highlighted spans must equal the submatches; distinct = (format, delivery, layout, paths, hit kinds); '
         'non-trivial = >= 2 hits')
-ASSUMPTIONS = ['path / number / code cells are recognised by the reserved colours given to the grep-* styles']
+ASSUMPTIONS = ['path / number / code cells are recognised by the reserved colours given to the grep-* styles',
+               'plain streams without line numbers never contain code that begins with digits and a separator: such a line is '
+               'byte-identical to a numbered line, so no reader could meet the property on it']
 CHUNK = 6
 T = gen.TAGS
 BIN = os.path.join(runner.STUBS, 'bin')
@@ -59,6 +61,8 @@ def gen_model(rng, fmt, headers=False):
                     continue
                 if fmt == 'plain' and (LOOKALIKE.search(p + ':' + code) or LOOKALIKE.search(p + '-' + code)):
                     continue    # the path itself followed by "<sep>digits<sep>" at the start of the code
+                if fmt == 'plain' and re.match(r'\d+[:=-]', code):
+                    continue    # "path:42: x" without line numbers is the very same text as line 42 with them: no reader can tell
                 break
             kind = 'match' if rng.random() < 0.7 else 'context'
             if headers and rng.random() < 0.25:
